@@ -49,6 +49,8 @@ type WorldOpts struct {
 	// FullCandidate: candidate 0 (a validator) gets synthetic base-coin delegators until 1000, 999
 	// or 998 of its 1000 delegation slots are taken: most stakes around a drawn level, a few low ones
 	FullCandidate bool
+	// CoinIDGap numbers the genesis coins 3, 4, ... (no coins 1 and 2)
+	CoinIDGap bool
 	// SpreadCandidateIDs gives every second extra candidate the id of its predecessor plus 256, 512 or 768
 	// (worlds without genesis frozen funds / waitlist only)
 	SpreadCandidateIDs bool
@@ -245,6 +247,11 @@ func GenWorld(t *rapid.T, o WorldOpts) *World {
 	}
 	var coins []coinDef
 	nextID := uint64(1)
+	if o.CoinIDGap {
+		// ids 3.. instead of 1..: the number of coins in the genesis plus one is then the id of a coin
+		// that exists (a genesis is valid with any distinct ids)
+		nextID = 3
+	}
 	for i := 0; i < nb; i++ {
 		c := coinDef{id: nextID, symbol: fmt.Sprintf("BNC%c", 'A'+i)}
 		nextID++
